@@ -86,6 +86,13 @@ def cases(sh, tier):
         for n in (1, 2):
             for scheme in ("backward", "centered"):
                 yield {"a": big, "op": "diff", "axis": NAMES[p], "ak": "name", "p": p, "n": n, "scheme": scheme, "keepaxis": False}
+    if nd <= 2 and sh["vk"] == "i" and sh["size"] >= 3:
+        # unsigned 64-bit values that go up AND down: NumPy's n-th difference is computed in the values' own (modular) arithmetic
+        u = dict(s, vk="u8", enc="nl")
+        for n in (1, 2, 3):
+            for scheme in ("backward", "forward"):
+                for keep in (False, True):
+                    yield {"a": u, "op": "diff", "axis": NAMES[p], "ak": "name", "p": p, "n": n, "scheme": scheme, "keepaxis": keep}
     # arg-extrema: variants with ties and NaNs
     n = int(np.prod(D.shape_of(s)))
     variants = [("plain", s)]
@@ -139,6 +146,12 @@ def _expect_along(ra, p, fn, newlabels):
     return R.RA(ra.dims, labels, out, ra.attrs)
 
 
+def _ndiff(v, n, dtype):
+    """NumPy's n-th difference of one fibre, in the values' own arithmetic for integer kinds (unsigned values wrap), as floats"""
+    arr = np.array(v, dtype=dtype if np.dtype(dtype).kind in "iu" else float)
+    return [float(x) for x in np.diff(arr, n=n)]
+
+
 def check(case):
     s = case["a"]
     ra = D.build_ref(s)
@@ -167,11 +180,11 @@ def check(case):
         if keep:
             newlab = list(lab)
             if scheme == "backward":
-                fn = lambda v: [float("nan")] * m_ + list(np.diff(np.array(v, dtype=float), n=n))
+                fn = lambda v: [float("nan")] * m_ + _ndiff(v, n, ra.vals.dtype)
             else:
-                fn = lambda v: list(np.diff(np.array(v, dtype=float), n=n)) + [float("nan")] * m_
+                fn = lambda v: _ndiff(v, n, ra.vals.dtype) + [float("nan")] * m_
         else:
-            fn = lambda v: list(np.diff(np.array(v, dtype=float), n=n))
+            fn = lambda v: _ndiff(v, n, ra.vals.dtype)
             if scheme == "backward":
                 newlab = list(lab[m_:])
             elif scheme == "forward":
